@@ -25,6 +25,11 @@ use crate::rec::FriShape;
 
 use crate::layers::PairAir;
 
+thread_local! {
+    /// set by a cached call whose slot was prepared by a backend with another recompose lane count
+    static OTHER_PACKING: std::cell::Cell<bool> = const { std::cell::Cell::new(false) };
+}
+
 #[derive(Clone, Debug, serde::Serialize, serde::Deserialize, PartialEq, Eq)]
 pub enum CacheMode {
     None,
@@ -50,6 +55,10 @@ pub struct HistorySpec {
     /// "KB4" (KoalaBear, degree-4 backend) or "GL2" (Goldilocks, degree-2 backend)
     #[serde(default)]
     pub universe: String,
+    /// each step draws its own recompose lane count (1, 1, 2 or 3) for the backend that proves it:
+    /// a layer proven with one packing is consumed by a step configured with another
+    #[serde(default)]
+    pub vary_lanes: bool,
 }
 
 macro_rules! dispatch_input {
@@ -118,7 +127,7 @@ pub fn gen_history(rng: &mut Rng, tier_steps: usize) -> HistorySpec {
         }
         _ => {}
     }
-    HistorySpec { fri, base, steps, seed: rng.next_u64(), universe: String::new() }
+    HistorySpec { fri, base, steps, seed: rng.next_u64(), universe: String::new(), vary_lanes: false }
 }
 
 macro_rules! c17_universe {
@@ -148,8 +157,8 @@ macro_rules! c17_universe {
                 }
             }
 
-            fn backend() -> Backend {
-                FriRecursionBackend::<{ $w }, { $r }, _>::new($p2cfg).for_extension_degree::<{ $d }>()
+            fn backend(lanes: usize) -> Backend {
+                FriRecursionBackend::<{ $w }, { $r }, _>::new($p2cfg).with_recompose_lanes(lanes).for_extension_degree::<{ $d }>()
             }
 
             fn params(fri: &FriShape) -> ProveNextLayerParams {
@@ -178,6 +187,8 @@ macro_rules! c17_universe {
             struct NextSlot {
                 cache: NextLayerPrepCache<Cfg>,
                 for_circuit: u64,
+                /// recompose lanes of the backend the cache was prepared with
+                lanes: usize,
             }
 
             fn with_input<R>(item: &Item, f: &mut dyn FnMut(InputRef<'_>) -> R) -> R {
@@ -194,8 +205,8 @@ macro_rules! c17_universe {
             }
 
             /// NEXT step. Returns (uncached twin outcome, cached outcome if a cache was involved, was the offered cache stale?, circuit digest)
-            fn do_next(cfg: &Cfg, p: &ProveNextLayerParams, item: &Item, mode: &CacheMode, slots: &mut Vec<Option<NextSlot>>) -> (CallOut, Option<CallOut>, bool, u64, (u32, usize)) {
-                let be = backend();
+            fn do_next(cfg: &Cfg, p: &ProveNextLayerParams, item: &Item, mode: &CacheMode, slots: &mut Vec<Option<NextSlot>>, lanes: usize) -> (CallOut, Option<CallOut>, bool, u64, (u32, usize)) {
+                let be = backend(lanes);
                 with_input(item, &mut |r| {
                     dispatch_input!(r, |input, A| {
                         let built = observe(|| build_next_layer_circuit::<Cfg, A, _, D>(&input, cfg, &be));
@@ -223,7 +234,7 @@ macro_rules! c17_universe {
                                         while slots.len() <= *s {
                                             slots.push(None);
                                         }
-                                        slots[*s] = Some(NextSlot { cache: c, for_circuit: dig });
+                                        slots[*s] = Some(NextSlot { cache: c, for_circuit: dig, lanes });
                                         (Some(call(slots[*s].as_ref().map(|x| &x.cache))), false)
                                     }
                                     Ok(Err(e)) => (Some(CallOut::Err(format!("prep: {e:?}"))), false),
@@ -231,7 +242,12 @@ macro_rules! c17_universe {
                                 }
                             }
                             CacheMode::Reuse(s) => match slots.get(*s).and_then(|x| x.as_ref()) {
-                                Some(slot) => (Some(call(Some(&slot.cache))), slot.for_circuit != dig),
+                                Some(slot) => {
+                                    if slot.lanes != lanes {
+                                        OTHER_PACKING.with(|c| c.set(true));
+                                    }
+                                    (Some(call(Some(&slot.cache))), slot.for_circuit != dig)
+                                }
                                 None => (None, false),
                             },
                         };
@@ -243,10 +259,11 @@ macro_rules! c17_universe {
             struct AggSlot {
                 cache: Option<AggregationPrepCache<Cfg>>,
                 for_circuit: Option<(usize, usize)>,
+                lanes: usize,
             }
 
-            fn do_agg(cfg: &Cfg, p: &ProveNextLayerParams, l: &Item, r: &Item, mode: &CacheMode, slots: &mut Vec<AggSlot>, pair_id: (usize, usize)) -> (CallOut, Option<CallOut>, bool) {
-                let be = backend();
+            fn do_agg(cfg: &Cfg, p: &ProveNextLayerParams, l: &Item, r: &Item, mode: &CacheMode, slots: &mut Vec<AggSlot>, pair_id: (usize, usize), lanes: usize) -> (CallOut, Option<CallOut>, bool) {
+                let be = backend(lanes);
                 with_input(l, &mut |lr| {
                     dispatch_input!(lr, |left, A1| {
                         with_input(r, &mut |rr| {
@@ -263,12 +280,15 @@ macro_rules! c17_universe {
                                     CacheMode::None => (twin, None, false),
                                     CacheMode::Build(s) | CacheMode::Reuse(s) => {
                                         while slots.len() <= *s {
-                                            slots.push(AggSlot { cache: None, for_circuit: None });
+                                            slots.push(AggSlot { cache: None, for_circuit: None, lanes });
                                         }
                                         if matches!(mode, CacheMode::Build(_)) {
-                                            slots[*s] = AggSlot { cache: None, for_circuit: None };
+                                            slots[*s] = AggSlot { cache: None, for_circuit: None, lanes };
                                         }
                                         let stale = slots[*s].for_circuit.is_some_and(|x| x != pair_id);
+                                        if slots[*s].for_circuit.is_some() && slots[*s].lanes != lanes {
+                                            OTHER_PACKING.with(|c| c.set(true));
+                                        }
                                         let had = slots[*s].cache.is_some();
                                         let before = slots[*s].cache.as_ref().map(|c| Rc::as_ptr(&c.circuit_prover_data));
                                         let c = call(Some(&mut slots[*s].cache));
@@ -276,6 +296,7 @@ macro_rules! c17_universe {
                                         if after.is_some() && after != before {
                                             // the call (re)populated the slot: from now on it belongs to this pair
                                             slots[*s].for_circuit = Some(pair_id);
+                                            slots[*s].lanes = lanes;
                                         }
                                         (twin, Some(c), stale && had)
                                     }
@@ -327,20 +348,25 @@ macro_rules! c17_universe {
                     out.evals += 1;
                     out.steps += 1;
                     let detail = json!({"history": h, "step": si});
+                    OTHER_PACKING.with(|c| c.set(false));
+                    let lanes = if h.vary_lanes { [1usize, 1, 2, 3][(mix(h.seed, si as u64) % 4) as usize] } else { 1 };
+                    if lanes != 1 {
+                        out.count("step_with_non_default_recompose_lanes");
+                    }
                     let (twin, cached, stale, what, counters) = match step {
                         Step::Next(i, mode) => {
                             if *i >= pool.len() {
                                 continue;
                             }
                             out.count(&format!("next_input_{}", pool[*i].label()));
-                            let (t, c, s, _dig, counters) = do_next(&cfg, &p, &pool[*i], mode, &mut next_slots);
+                            let (t, c, s, _dig, counters) = do_next(&cfg, &p, &pool[*i], mode, &mut next_slots, lanes);
                             (t, c, s, "next", counters)
                         }
                         Step::Agg(i, j, mode) => {
                             if *i >= pool.len() || *j >= pool.len() {
                                 continue;
                             }
-                            let (t, c, s) = do_agg(&cfg, &p, &pool[*i], &pool[*j], mode, &mut agg_slots, (*i, *j));
+                            let (t, c, s) = do_agg(&cfg, &p, &pool[*i], &pool[*j], mode, &mut agg_slots, (*i, *j), lanes);
                             (t, c, s, "agg", (0, 0))
                         }
                     };
@@ -389,7 +415,13 @@ macro_rules! c17_universe {
                                             }
                                             v
                                         };
-                                        if commit(&o) != commit(t) {
+                                        // a cache prepared for this circuit under another table packing
+                                        // yields a proof of the same circuit with the cached packing:
+                                        // its verifying data legitimately differs from the twin's
+                                        let other_packing = OTHER_PACKING.with(|c| c.get());
+                                        if other_packing && !stale {
+                                            out.count("valid_cache_other_packing_output_verifies");
+                                        } else if commit(&o) != commit(t) {
                                             out.violate(
                                                 format!("{kind}_{what}_cache_used_silently"),
                                                 format!("step {si} ({step:?}): the call accepted a cache prepared for a different circuit: its proof verifies against the OTHER circuit's preprocessed commitment (neither refused nor recomputed)"),
@@ -447,6 +479,7 @@ pub fn one_run(ctx: &Ctx, idx: u64, out: &mut RunOut) {
     let mut h = gen_history(&mut rng, ctx.tier.pick(6, 9));
     // one run in four over Goldilocks with the degree-2 backend
     h.universe = if idx % 4 == 3 { "GL2".into() } else { "KB4".into() };
+    h.vary_lanes = idx % 3 == 1;
     if out.samples.is_empty() {
         out.samples.push(json!({"history": h}));
     }
